@@ -158,7 +158,9 @@ class VCond:
             if t.blocked is self.lock:
                 t.blocked = None
         self.waiters.append(me)
+        S.events.append(("wait-enter", me.name))
         ok = S.block(self, timeout)
+        S.events.append(("wait-exit", me.name, "notified" if ok else "timeout"))
         if me in self.waiters:
             self.waiters.remove(me)
         while self.lock.owner is not None:
@@ -255,9 +257,19 @@ def harness_emcy(code_filter):
 
     def recv():
         c.on_emcy(0x83, b"\x10\x20\x01\x00\x00\x00\x00\x00", 1.0)   # code 0x2010
+        S.events.append(("delivered", 0x2010))
         c.on_emcy(0x83, b"\x20\x30\x01\x00\x00\x00\x00\x00", 2.0)   # code 0x3020
+        S.events.append(("delivered", 0x3020))
     S.spawn(recv, "receiver")
-    return lambda: (None if w.res is None else (hex(w.res.code) if hasattr(w.res, "code") else repr(w.res)))
+
+    def result():
+        r = None if w.res is None else (hex(w.res.code) if hasattr(w.res, "code") else repr(w.res))
+        ev = S.events
+        first_wait = next((i for i, e in enumerate(ev) if e[0] == "wait-enter"), None)
+        d1 = next((i for i, e in enumerate(ev) if e == ("delivered", 0x2010)), None)
+        during = first_wait is not None and d1 is not None and d1 > first_wait
+        return (r, "0x2010-delivered-after-first-wait-enter" if during else "0x2010-before-wait")
+    return result
 
 
 def harness_nmt():
@@ -306,3 +318,136 @@ if __name__ == "__main__":
             st = explore(h, bound)
             print(f"{name:14s} P<={bound}: executions={st['executions']:5d} "
                   f"outcomes={st['outcomes']}  {realtime.perf_counter() - t0:.2f}s")
+
+
+# --------------------------------------------------------------------------------------------------
+# second prototype harness: two SDO client threads on distinct nodes + a dispatcher thread (C03 b)
+# --------------------------------------------------------------------------------------------------
+import queue as _realqueue
+import canopen.network as net_mod
+import canopen.sdo.client as cl_mod
+
+
+class VQueue:
+    def __init__(self):
+        self.items = []
+
+    def put(self, x):
+        if controlled():
+            S.point()
+        self.items.append(x)
+        if S:
+            for t in S.threads:
+                if t.blocked is self:
+                    t.blocked = None
+                    t.deadline = None
+
+    def empty(self):
+        if controlled():
+            S.point()
+        return not self.items
+
+    def get(self, block=True, timeout=None):
+        S.point()
+        while not self.items:
+            if not S.block(self, timeout):
+                raise _realqueue.Empty
+        return self.items.pop(0)
+
+
+cl_mod.queue = types.SimpleNamespace(Queue=VQueue, Empty=_realqueue.Empty)
+cl_mod.time = VTime
+net_mod.threading = VTHREADING
+interpose(cl_mod.SdoClient, {"responses"})
+
+
+def mkod2():
+    od = ObjectDictionary()
+    for n, i, t in (("u16", 0x2001, dt.UNSIGNED16), ("str", 0x2002, dt.VISIBLE_STRING), ("hb", 0x1017, dt.UNSIGNED16)):
+        v = ODVariable(n, i)
+        v.data_type = t
+        v.default = 0 if t != dt.VISIBLE_STRING else ""
+        od.add_object(v)
+    return od
+
+
+OD2 = mkod2()
+
+
+class FifoBus:
+    channel_info = "proto"
+
+    def __init__(self):
+        self.fifo = []
+        self.nets = []
+        self.wake = object()
+
+    def attach(self, net):
+        self.nets.append(net)
+        bus = self
+
+        class Port:
+            channel_info = "proto"
+
+            def send(self_p, msg):
+                S.point()
+                bus.fifo.append((net, msg))
+                for t in S.threads:
+                    if t.blocked is bus.wake:
+                        t.blocked = None
+        net.bus = Port()
+
+
+def harness_sdo2(nclients=2, segmented=False):
+    bus = FifoBus()
+    m = canopen.Network()
+    s = canopen.Network()
+    bus.attach(m)
+    bus.attach(s)
+    remotes = [m.add_node(5 + i, OD2) for i in range(nclients)]
+    locals_ = [s.create_node(5 + i, OD2) for i in range(nclients)]
+    results = {}
+    done = []
+
+    def client(i):
+        def body():
+            try:
+                if segmented:
+                    v = "client-%d-payload" % i
+                    remotes[i].sdo["str"].raw = v
+                    got = remotes[i].sdo["str"].raw
+                else:
+                    v = 0x1111 * (i + 1)
+                    remotes[i].sdo["u16"].raw = v
+                    got = remotes[i].sdo["u16"].raw
+                results[i] = "ok" if got == v else "WRONG %r" % (got,)
+            except Exception as e:  # noqa: BLE001
+                results[i] = type(e).__name__
+            done.append(i)
+            for t in S.threads:
+                if t.blocked is bus.wake:
+                    t.blocked = None
+        return body
+
+    def dispatcher():
+        while True:
+            while bus.fifo:
+                src, msg = bus.fifo.pop(0)
+                for n in bus.nets:
+                    if n is not src:
+                        n.listeners[0].on_message_received(msg)
+            if len(done) == nclients and not bus.fifo:
+                return
+            S.block(bus.wake)
+    for i in range(nclients):
+        S.spawn(client(i), "client%d" % i)
+    S.spawn(dispatcher, "dispatcher")
+    return lambda: tuple(sorted(results.items()))
+
+
+if __name__ == "__main__":
+    for name, h in (("sdo 2 clients exp", lambda: harness_sdo2(2, False)), ("sdo 2 clients seg", lambda: harness_sdo2(2, True))):
+        for bound in (0, 1, 2):
+            t0 = realtime.perf_counter()
+            st = explore(h, bound)
+            print(f"{name:18s} P<={bound}: executions={st['executions']:6d} outcomes={st['outcomes']}  {realtime.perf_counter() - t0:.1f}s")
